@@ -112,7 +112,7 @@ def gen_history(st):
                 "keep_all": rng.below(5) == 0, "max_dist": None, "max_value": None}
         if rng.below(4) == 0:
             spec["max_dist"] = threshold(di if di is not None else 0) if (di is not None or not dicts[0]) else None
-        if rng.below(6) == 0 and spec["max_dist"] is None:
+        if rng.below(6) == 0 and (spec["max_dist"] is None or rng.below(3) == 0):     # sometimes both bounds: the smaller one counts
             t = threshold(di if di is not None else 0) if (di is not None or not dicts[0]) else None
             if t is not None:
                 spec["max_value"] = t / lq
